@@ -38,7 +38,7 @@ def run(run):
         for v in variants:
             reqs.append("compact " + cg.fmt(v))
             meta.append((k, "compact"))
-    impl, model = core.both(run, reqs, "compact", canon=lambda q, a: ("ok " + cg.fmt(sorted(cg.parse_list(a)))) if a.startswith("ok ") else a)
+    impl, model = core.both(run, reqs, "compact", canon=lambda q, a: ("ok " + cg.fmt(sorted(cg.parse_list(a)))) if a.startswith("ok ") else core.default_canon(q, a))
     first = {}
     unreq, unmeta = [], []
     for (k, _), q, a in zip(meta, reqs, impl):
